@@ -179,6 +179,12 @@ class Check:
             tv = {x for x in tlc_viol.get(sid, set()) if x[0] == self.prop}
             if s.get("flagged"):
                 rust_mine = [v for v in self.violations + self.known_list if v.get("index") == s.get("index") and v.get("task") == s.get("task")]
+                if rust_mine and not tv and tlc_viol.get(sid):
+                    # TLC sees the session violate a predicate, filed under another property (an abort is C04 for TLC whatever
+                    # the check that met it): confirmed
+                    for v in rust_mine:
+                        v["confirmed_by_tlc"] = True
+                    continue
                 if rust_mine and not tv:
                     # TLC is the judge: what the fast monitor flags and the specification's predicate does not is no verdict
                     self.tool_errors.append(f"monitor disagreement: harness flagged {self.prop} on {s.get('label')} ({rust_mine[0].get('clause')}) but TLC did not confirm it")
